@@ -114,10 +114,15 @@ func runSolver(s solverSpec, query string, timeoutS int) (string, string, int64)
 	cmd.Run()
 	ms := time.Since(t0).Milliseconds()
 	o := out.String()
-	first := strings.TrimSpace(strings.SplitN(o, "\n", 2)[0])
-	switch first {
-	case "unsat", "sat", "unknown":
-		return first, o, ms
+	for _, ln := range strings.Split(o, "\n") {
+		ln = strings.TrimSpace(ln)
+		switch ln {
+		case "unsat", "sat", "unknown":
+			return ln, o, ms
+		}
+		if ln != "" && !strings.HasPrefix(ln, "WARNING") && !strings.HasPrefix(ln, "(warning") {
+			break
+		}
 	}
 	if strings.Contains(o, "timeout") || ctx.Err() != nil {
 		return "timeout", o, ms
